@@ -202,3 +202,7 @@ _add("C13", "a loader answers 'unchanged' only under reflect.DeepEqual of the ca
 _add("C07", "system.LoadRules answers 'unchanged' only under reflect.DeepEqual (a reload that changes only the strategy is applied); IsValidSystemRule rejects a negative trigger for every metric type.")
 _add("C02", "the Direct calculator hands over the rule's threshold unchanged (constructor stores its parameter, CalculateAllowedTokens returns the field, constructor calls pass Rule.Threshold).")
 _add("C10", "the Direct calculator's threshold reaches the throttling checker unchanged.")
+_add("C03", "no two new breakers of one reload share one old breaker's statistic (the donor is removed from the candidates once used), so no completion is counted twice in a shared window.")
+_add("C04", "everything that completes an entry (and so frees its unit of capacity) runs inside the once-only section of Exit.")
+_add("C06", "completion is told to the statistic slots exactly when the pass was (the marker is set before the first statistic slot runs), so a unit taken at pass time is released at exit even if a later statistic slot panicked.")
+_add("C15", "concurrent first entries of one resource end on one node (absent re-checked under the write lock before a new node is stored).")
